@@ -164,6 +164,8 @@ class FakeNumpy:
     int64 = type('int64', (), {})
     float32 = type('float32', (), {})
     float64 = type('float64', (), {})
+    complex64 = type('complex64', (), {})
+    complex128 = type('complex128', (), {})
     intp = A.IntP
     linalg = FakeNpLinalg
     random = FakeRandom
@@ -230,10 +232,34 @@ class FakeNumpy:
             return Arr([len(vals)], None, 'real', None, {'value': vals}, 'arange')
         raise AnalysisError('np.arange with symbolic start/step has no model')
 
+    @staticmethod
+    def fill_diagonal(a, val, wrap=False):
+        # a[i, i] = val[i] (val scalar or vector): the pointwise store through two equal index vectors
+        a = as_arr(a)
+        if a.ndim != 2 or wrap:
+            raise AnalysisError('np.fill_diagonal on an array that is not a matrix (or with wrap=True) has no model')
+        n = sz_min(ctx().atoms, a.shape[0], a.shape[1])
+        idx = FakeNumpy.arange(n)
+        a[idx, idx] = val
+
+    @staticmethod
+    def broadcast_to(x, shape, **k):
+        shape = _shape_arg(shape)
+        if isinstance(x, Arr):
+            if x.ndim == len(shape) and all(sz_eq(p_, q_) for p_, q_ in zip(x.shape, shape)):
+                return x[(slice(None),) * x.ndim] if x.ndim else x          # a (read-only) view of the same data
+            raise AnalysisError(f'np.broadcast_to from shape {tuple(x.shape)} to {tuple(shape)} has no model')
+        if isinstance(x, (int, float, complex)) and not isinstance(x, bool):
+            r = (FakeNumpy.zeros if x == 0 else FakeNumpy.ones)(shape, dtype=type(x))
+            return r if x in (0, 1) else r * x
+        raise AnalysisError('np.broadcast_to of this operand has no model')
+
     # ---- structure
     @staticmethod
-    def reshape(a, shape, **k):
-        return A.reshape(as_arr(a), _shape_arg(shape))
+    def reshape(a, shape, order='C', **k):
+        if k:
+            raise AnalysisError(f'np.reshape with keyword arguments {sorted(k)} has no model')
+        return A.reshape_ordered(as_arr(a), _shape_arg(shape), order)
 
     @staticmethod
     def transpose(a, axes=None):
@@ -526,8 +552,11 @@ class FakeNumpy:
                 ds.append(x.dt)
             elif isinstance(x, A.DType):
                 ds.append(x.cls)
-            elif x is complex or isinstance(x, complex):
+            elif x is complex or isinstance(x, complex) or getattr(x, '__name__', '') in ('complex64', 'complex128'):
+                # (precision is not modelled: joined with the double-precision arrays of the scenarios, complex64 gives complex128)
                 ds.append('complex')
+            elif getattr(x, '__name__', '') in ('int32', 'int64') or x is int:
+                ds.append('int')
             else:
                 ds.append('real')
         return A.DType(A.join_dtype(*ds))
@@ -621,6 +650,15 @@ class FakeNumpy:
         k = ctx().atoms.new('k', free=True, upper=[n], origin='np.count_nonzero: number of entries kept')
         ctx().event('where', cond=cond, index=None, count=k, env=_simple_env())
         return k
+
+    @staticmethod
+    def searchsorted(a, v, side='left', sorter=None):
+        # the one use that has a meaning for the rules: the number of entries of a non-increasing vector X above a bound, written as a bisection on -X
+        a = as_arr(a)
+        c0, root = a.tags.get('scale', (1, a))
+        if sorter is None and a.ndim == 1 and c0 == -1 and isinstance(v, (int, float)) and not isinstance(v, bool) and side in ('left', 'right'):
+            return FakeNumpy.count_nonzero((root > -v) if side == 'left' else (root >= -v))
+        raise AnalysisError('np.searchsorted in this form has no model')
 
     @staticmethod
     def argsort(a, *x, **k):
